@@ -35,7 +35,8 @@ def vals(r, n, zero=0.2):
 
 ALT = {"t": [["i2000", "i2001", "i2002"], ["i2010", "i2011", "i2012"], ["i2002", "i2000", "i2001"]],
        "r": [["sEU", "sAsia"], ["sAsia", "sEU"], ["sUS", "sCN"]],
-       "g": [["scar", "sbike", "sbus"], ["sbus", "scar", "sbike"], ["svan", "struck", "sbike"]]}
+       "g": [["scar", "sbike", "sbus"], ["sbus", "scar", "sbike"], ["svan", "struck", "sbike"],
+             ["spre", "i1950", "i1980"]]}      # age cohorts of mixed type, in a dimension without dtype
 TY = {"t": "i", "r": "s", "g": "s"}
 
 
@@ -44,9 +45,12 @@ class Case:
         self.lines = lines
         lines.append(f"case {n} {stream}")
         # same dimension names and sizes from case to case, other items or another item order
-        self.items = {l: (r.choice(ALT[l]) if r is not None else ITEMS[l]) for l in "trg"}
+        # (items of mixed type only in the export stream: a plotted axis shows labels as text anyway)
+        pool = {l: [a for a in ALT[l] if stream == "export" or len({i[0] for i in a}) == 1] for l in "trg"}
+        self.items = {l: (r.choice(pool[l]) if r is not None else ITEMS[l]) for l in "trg"}
         for l in "trg":
-            lines.append(f"dim ${H[l]} D:{l}:{NAME[l]}:{TY[l]}:{','.join(self.items[l])}")
+            ty = "n" if len({i[0] for i in self.items[l]}) > 1 else TY[l]
+            lines.append(f"dim ${H[l]} D:{l}:{NAME[l]}:{ty}:{','.join(self.items[l])}")
         self.dh = 10
         self.dsets = {}
 
